@@ -38,9 +38,9 @@ Definition chk_labels (c : nat * circ * bool * bool * res (list label)) : bool :
   res_beq labels_beq (Ok (auto_labels n (if ign then is_qpd2 else fun _ => false) keep c0)) e.
 
 (* ---- _qubit_map_from_partition_labels : (labels, expected qubit_map, expected qubits_by_subsystem) ---- *)
-Definition chk_qmap (c : list label * qmap * list (nat * list nat)) : bool :=
-  let '(ls, eq, eg) := c in
-  let '(qm, g) := qubit_map_from_labels ls in qmap_beq qm eq && groups_beq g eg.
+Definition chk_qmap (c : list label * res (qmap * list (nat * list nat))) : bool :=
+  let '(ls, e) := c in
+  res_beq (pair_beq qmap_beq groups_beq) (Ok (qubit_map_from_labels ls)) e.
 
 (* ---- separate_circuit : (n, cregs, circuit, labels, expected) ---- *)
 Definition sep_beq (a b : list subcirc * qmap) : bool :=
